@@ -184,13 +184,19 @@ impl SourceView {
 
         // fetched everything
         if self.processed_until.load(Ordering::Relaxed) > self.source.len() {
-            return None;
+            // Another thread may have finished indexing since the lookup above.
+            return self.lines.lock().unwrap().get(idx).copied();
         }
         #[cfg(sourcemap_verif)]
         crate::verif_hooks::yield_point(2);
 
         let mut lines = self.lines.lock().unwrap();
-        let mut done = false;
+        // Another thread may have indexed further - possibly to the end of the
+        // source - between the checks above and taking the lock.
+        if let Some(&line) = lines.get(idx) {
+            return Some(line);
+        }
+        let mut done = self.processed_until.load(Ordering::Relaxed) > self.source.len();
 
         while !done {
             let rest = &self.source.as_bytes()[self.processed_until.load(Ordering::Relaxed)..];
